@@ -2,6 +2,7 @@ package corerad
 
 import (
 	"context"
+	"github.com/mdlayher/corerad/internal/config"
 	"github.com/mdlayher/corerad/internal/system"
 	"github.com/mdlayher/ndp"
 	"net"
@@ -13,11 +14,22 @@ import (
 // the advertiser still stops promptly, reports success and, when
 // terminating, its last packet is the zero-lifetime RA.
 func zzH08e() {
-	rec, st := &zzRec{}, &zzState{}
 	cfg := zzCfg("eth0")
 	cfg.UnicastOnly = false
 	cfg.Verbose = false
 	term := zzNondetChoice("terminate", 2) == 1
+	fwd := zzNondetBool("forwarding")
+	src := zzNondetAddr6("src")
+	zzAssume(zzAnd(zzNot(src.IsMulticast()), zzNot(src.IsUnspecified())))
+	// natively the outcome of the race is up to the runtime: repeated
+	for trial := 0; trial < zzNativeTrials(30); trial++ {
+		zzReplayRestart()
+		zzH08eOnce(cfg, term, fwd, src)
+	}
+}
+
+func zzH08eOnce(cfg config.Interface, term, fwd bool, src netip.Addr) {
+	rec, st := &zzRec{}, &zzState{fwdFixed: &fwd}
 	conn := &zzConn{blockWhenIdle: true}
 	dialer := system.NewDialer("eth0", st, system.Advertise, nil)
 	dialer.DialFunc = func() (*system.DialContext, error) {
@@ -33,8 +45,6 @@ func zzH08e() {
 		returned = true
 	}()
 	zzWaitIdle()
-	src := zzNondetAddr6("src")
-	zzAssume(zzAnd(zzNot(src.IsMulticast()), zzNot(src.IsUnspecified())))
 	// the solicitation and the stop request race
 	conn.inject <- zzRead{m: &ndp.RouterSolicitation{}, hop: 255, host: src}
 	cancel()
